@@ -37,6 +37,23 @@ pub enum Script {
     MaxKInterrupt { k: usize, int_call: usize },
     /// sink that implements write_vectored itself: accepts at most k bytes per call, spanning slices
     VecMaxK(usize),
+    /// fixed-capacity sink (`&mut [u8]`, a bounded pipe): accepts bytes until `cap` is reached, then returns Ok(0)
+    Capacity(usize),
+    /// at most k bytes per call; at call `at` the sink returns an error of kind `kind` ONCE and then recovers
+    /// (kind: 0 WouldBlock, 1 TimedOut, 2 Interrupted, 3 Other, 4 BrokenPipe, 5 WriteZero, 6 OutOfMemory)
+    MaxKErrOnce { k: usize, at: usize, kind: u8 },
+}
+
+pub fn err_kind(kind: u8) -> io::ErrorKind {
+    match kind % 7 {
+        0 => io::ErrorKind::WouldBlock,
+        1 => io::ErrorKind::TimedOut,
+        2 => io::ErrorKind::Interrupted,
+        3 => io::ErrorKind::Other,
+        4 => io::ErrorKind::BrokenPipe,
+        5 => io::ErrorKind::WriteZero,
+        _ => io::ErrorKind::OutOfMemory,
+    }
 }
 
 pub struct Sink {
@@ -47,12 +64,16 @@ pub struct Sink {
     pub log: Vec<(usize, usize)>,
     pub failed: bool,
     pub interrupted: bool,
+    /// returned Ok(0) for a non-empty buffer (fixed-capacity sink exhausted)
+    pub full: bool,
+    /// returned a one-shot error of a kind other than Interrupted and kept working afterwards
+    pub transient: bool,
     pub flushes: usize,
 }
 
 impl Sink {
     pub fn new(script: Script) -> Sink {
-        Sink { script, accepted: Vec::new(), calls: 0, log: Vec::new(), failed: false, interrupted: false, flushes: 0 }
+        Sink { script, accepted: Vec::new(), calls: 0, log: Vec::new(), failed: false, interrupted: false, full: false, transient: false, flushes: 0 }
     }
 }
 
@@ -126,6 +147,26 @@ impl Write for Sink {
                 take(*k)
             }
             Script::VecMaxK(k) => take(*k),
+            Script::Capacity(cap) => {
+                let room = cap.saturating_sub(self.accepted.len());
+                if room == 0 {
+                    // "no longer able to accept bytes": legal for a non-empty buffer; the caller must not report success
+                    self.full = true;
+                    return Ok(0);
+                }
+                buf.len().min(room)
+            }
+            Script::MaxKErrOnce { k, at, kind } => {
+                if call == *at {
+                    if err_kind(*kind) == io::ErrorKind::Interrupted {
+                        self.interrupted = true;
+                    } else {
+                        self.transient = true;
+                    }
+                    return Err(io::Error::new(err_kind(*kind), "scripted one-shot error"));
+                }
+                take(*k)
+            }
         };
         self.accepted.extend_from_slice(&buf[..n]);
         Ok(n)
@@ -189,7 +230,7 @@ pub fn run_sink(mapping: &[u8], canonical: &[u8], script: &Script) -> Result<(bo
             }
         }
         Err(_) => {
-            if !sink.failed && !sink.interrupted {
+            if !sink.failed && !sink.interrupted && !sink.full && !sink.transient {
                 return Err(Fail::new("spurious-error", format!("write returned Err although sink {script:?} never failed: {res:?}")).with(detail));
             }
         }
@@ -253,6 +294,28 @@ pub fn scripts_for(log: &[(usize, usize)], tier_full: bool) -> Vec<Script> {
     }
     for k in [1usize, 2, 3, 4, 5, 7, 8, 13, 16, 23, 24, 25, 27, 28, 29, 31, 32, 36, 37, 51, 64] {
         v.push(Script::VecMaxK(k));
+    }
+    // fixed-capacity sinks: every capacity around the section boundaries, and a spread of the others
+    let total: usize = log.iter().map(|(_, l)| *l).sum();
+    let mut caps: Vec<usize> = vec![0, 1, 23, 24, 25, total.saturating_sub(1), total, total + 1, total + 100];
+    for (off, len) in log {
+        caps.extend([off.saturating_sub(1), *off, off + 1, off + len / 2, off + len]);
+    }
+    if tier_full && total <= 4096 {
+        caps.extend(0..=total);
+    }
+    caps.sort();
+    caps.dedup();
+    for c in caps {
+        v.push(Script::Capacity(c));
+    }
+    // one-shot errors of every kind in the middle of chunked delivery (the sink recovers afterwards)
+    for kind in 0..7u8 {
+        for k in [1usize, 3, 16, usize::MAX] {
+            for at in [0usize, 1, 2, 3, 5, n / 2, n.saturating_sub(1), n, n + 3] {
+                v.push(Script::MaxKErrOnce { k, at, kind });
+            }
+        }
     }
     v
 }
@@ -333,11 +396,11 @@ pub fn check_sinks(bytes: &[u8], case_hash: u64, all_lengths: bool, max_pairs: u
             Script::ShortOnceAt { call, .. } | Script::FailAt { call } | Script::InterruptAt { call } => Some(*call),
             Script::ShortThenFail { fail_call, .. } => Some(*fail_call),
             Script::ShortThenInterrupt { int_call, .. } => Some(*int_call),
-            Script::MaxKThenFail { .. } | Script::MaxKInterrupt { .. } | Script::VecMaxK(_) => Some(0),
+            Script::MaxKThenFail { .. } | Script::MaxKInterrupt { .. } | Script::VecMaxK(_) | Script::Capacity(_) | Script::MaxKErrOnce { .. } => Some(0),
             Script::All => None,
         };
         let in_padding = match (fault_call, first_pad_call) {
-            (Some(f), Some(p)) => matches!(sc, Script::MaxK(_) | Script::MaxKThenFail { .. } | Script::MaxKInterrupt { .. } | Script::VecMaxK(_)) || f >= p,
+            (Some(f), Some(p)) => matches!(sc, Script::MaxK(_) | Script::MaxKThenFail { .. } | Script::MaxKInterrupt { .. } | Script::VecMaxK(_) | Script::Capacity(_) | Script::MaxKErrOnce { .. }) || f >= p,
             _ => false,
         };
         if in_padding {
@@ -353,8 +416,8 @@ pub fn check_sinks(bytes: &[u8], case_hash: u64, all_lengths: bool, max_pairs: u
 
 pub fn run(ctx: &Ctx) -> Report {
     let mut rep = Report::new(ID, "fault_enumeration", ctx);
-    rep.rule = "Cases: grammar-generated mappings (padding present after classes / members / by-params in varying combinations, and absent). Canonical bytes = write into a Vec. Per mapping, sinks enumerated: accept <= k bytes per call for k=1..16; short exactly once at every call index i with shortened lengths {1,2,3,4,5,7,len/2,len-1} (all lengths for writes <= 64 bytes on every 8th mapping); fail with ErrorKind::Other at every call index; ErrorKind::Interrupted once at every call index; one short call followed by a failure at every later index; k-limited sinks with a failure or an interruption; a short write followed by ErrorKind::Interrupted on the continuation call; sinks that implement write_vectored themselves and accept at most k bytes across slice boundaries. Oracle: Ok => accepted bytes == canonical; non-retryable sink failure => Err; always: accepted bytes are a prefix of canonical; Err without any sink fault is a violation. evaluations = sink runs. Non-trivial = distinct (mapping, sink) where the fault lands on or after the first padding call.".into();
-    rep.assumptions = vec!["sinks obey the std::io::Write contract (never Ok(0) for a non-empty buffer)".into(), "an Interrupted that surfaces as Err is tolerated (the statement only forbids success with wrong bytes)".into()];
+    rep.rule = "Cases: grammar-generated mappings (padding present after classes / members / by-params in varying combinations, and absent). Canonical bytes = write into a Vec. Per mapping, sinks enumerated: accept <= k bytes per call for k=1..16; short exactly once at every call index i with shortened lengths {1,2,3,4,5,7,len/2,len-1} (all lengths for writes <= 64 bytes on every 8th mapping); fail with ErrorKind::Other at every call index; ErrorKind::Interrupted once at every call index; one short call followed by a failure at every later index; k-limited sinks with a failure or an interruption; a short write followed by ErrorKind::Interrupted on the continuation call; sinks that implement write_vectored themselves and accept at most k bytes across slice boundaries; fixed-capacity sinks that return Ok(0) once full, for every capacity around the section boundaries (all capacities for small files on every 8th mapping); one-shot errors of kind WouldBlock / TimedOut / Interrupted / Other / BrokenPipe / WriteZero / OutOfMemory during chunked delivery after which the sink recovers. Oracle: Ok => accepted bytes == canonical; non-retryable sink failure => Err; always: accepted bytes are a prefix of canonical; Err without any sink fault is a violation. evaluations = sink runs. Non-trivial = distinct (mapping, sink) where the fault lands on or after the first padding call.".into();
+    rep.assumptions = vec!["sinks obey the std::io::Write contract; Ok(0) for a non-empty buffer is only returned by the fixed-capacity sinks once full, where it means that the sink cannot accept more".into(), "an Interrupted that surfaces as Err is tolerated (the statement only forbids success with wrong bytes)".into()];
     let n = ctx.cases(15_000, 600_000);
     rep.run_stage("ast", || map_case(&cfg()), n, check_case);
     let mut sized = Vec::new();
